@@ -49,6 +49,21 @@ class T:
         return show(self)
 
 
+def subst(t, mapping):
+    """replace parameter terms by the terms in `mapping` (name -> T) throughout t"""
+    def rec(x):
+        if isinstance(x, T):
+            if x.k == "param" and x.a and x.a[0] in mapping:
+                return mapping[x.a[0]]
+            return T(x.k, tuple(rec(y) for y in x.a), x.node)
+        if isinstance(x, tuple):
+            return tuple(rec(y) for y in x)
+        if isinstance(x, list):
+            return [rec(y) for y in x]
+        return x
+    return rec(t)
+
+
 def show(t, depth=0):
     if not isinstance(t, T):
         return repr(t)
